@@ -22,6 +22,8 @@ Eval(a, env) ==
     [] a.t = "cond" -> Bool(env[a.i])
     [] a.t = "fail" -> Err("DIV0")
     [] a.t = "failref" -> Err("DIV0")               \* a bare reference to a cell whose own formula fails
+    [] a.t = "failcat" -> Err("DIV0")               \* ... joined with a text by & : the failure is still a failure
+    [] a.t = "failcmp" -> Err("DIV0")               \* ... compared with a number
     [] a.t = "na"   -> Err("NA")
     [] a.t = "blank" -> [k |-> "blank"]             \* a reference to a blank cell: a value, not an error
     [] a.t = "text" -> [k |-> "text"]               \* a text value (which text is irrelevant here)
